@@ -270,9 +270,12 @@ def resource_xml(universe, resource, quote='"', indent=True, lexdocs=None, style
 
 def ili_tsv(ili_file) -> bytes:
     cols = ili_file['columns']
+    extra = ili_file.get('extra_column')        # a column wn does not know: must be ignored
     head = [c.upper() if ili_file.get('upper') else c for c in cols]
     if ili_file.get('upper'):
         head[0] = 'ILI'
+    if extra:
+        head.append('comment')
     lines = ['\t'.join(head)]
     for r in ili_file['rows']:
         vals = []
@@ -283,8 +286,11 @@ def ili_tsv(ili_file) -> bytes:
                 vals.append(r.get('status', 'active'))
             else:
                 vals.append(r.get('definition', ''))
+        if extra:
+            vals.append('note on %s' % r['ili'])
         lines.append('\t'.join(vals))
-    return ('\n'.join(lines) + '\n').encode('utf-8')
+    nl = '\r\n' if ili_file.get('crlf') else '\n'
+    return (nl.join(lines) + nl).encode('utf-8')
 
 
 # -- packagers --------------------------------------------------------------------------
